@@ -208,7 +208,7 @@ def shard(part, shard_i, nshards, tier, seed, deadline):
     ilv.install()
     for i, h in enumerate(harnesses(tier)):
         if (i + seed) % nshards == shard_i:
-            ilvrun.explore_all(part, [h], 0, 1, PB_of(tier, h), 0, deadline, horizon=5.0)
+            ilvrun.explore_all(part, [h], 0, 1, PB_of(tier, h), 0, deadline, horizon=5.0, coarse_pb=2 if len(h.seqs) == 3 else None)
 
 
 def run_part(ctx):
